@@ -38,6 +38,8 @@ pub enum Coll {
     /// `ForEachConcurrent` is not nameable from outside the crate
     Fec(Pin<Box<dyn FusedFuture<Output = ()>>>),
     Ja(JoinAll<Fut>),
+    /// `join_all` over futures with a zero-sized output (`zst=1`); the ids of the inputs in order
+    JaUnit(JoinAll<UnitFut>, Vec<u32>),
     Tja(TryJoinAll<TryFut>),
 }
 
@@ -98,6 +100,14 @@ fn guarded(f: impl FnOnce()) -> Outcome {
         }
     };
     PANICKING.store(false, Relaxed);
+    // a write into a waker block the crate had already released (kind 9)
+    while let Some((base, _off)) = crate::galloc::poison_damage() {
+        let b = g(|g| g.block_containing(base));
+        match b {
+            Some(b) => logf!("vtbad 9 {b}"),
+            None => logf!("vtbad 9 ?"),
+        }
+    }
     let n = ALLOC_COUNT.swap(0, Relaxed);
     if n > 0 {
         logf!("alloc {n}");
@@ -449,6 +459,8 @@ fn construct(decl: Decl) -> Coll {
     let n = param_usize(&spec, "n").unwrap_or(None).unwrap_or(0);
     let seed = param_usize(&spec, "seed").unwrap_or(None);
     let use_iter = spec.flag("iter");
+    // `lazy=1`: hand the constructor an iterator whose `size_hint` is `(0, Some(n))` instead of a Vec
+    let lazy = spec.flag("lazy");
     let use_new = spec.flag("new");
     let no_inits = inits.is_empty();
 
@@ -476,7 +488,7 @@ fn construct(decl: Decl) -> Coll {
         Ty::Fub => {
             if use_iter {
                 let v = make_inits(inits, Fut::new);
-                Coll::Fub(in_crate(move || FuturesUnorderedBounded::from_iter(v)))
+                Coll::Fub(in_crate(move || if lazy { FuturesUnorderedBounded::from_iter(v.into_iter().filter(|_| true)) } else { FuturesUnorderedBounded::from_iter(v) }))
             } else {
                 let cap = cap.unwrap_or(0);
                 Coll::Fub(in_crate(|| FuturesUnorderedBounded::new(cap)))
@@ -485,7 +497,7 @@ fn construct(decl: Decl) -> Coll {
         Ty::Fu => {
             if use_iter {
                 let v = make_inits(inits, Fut::new);
-                Coll::Fu(in_crate(move || FuturesUnordered::from_iter(v)))
+                Coll::Fu(in_crate(move || if lazy { FuturesUnordered::from_iter(v.into_iter().filter(|_| true)) } else { FuturesUnordered::from_iter(v) }))
             } else if use_new || cap.is_none() {
                 Coll::Fu(in_crate(FuturesUnordered::new))
             } else {
@@ -495,12 +507,12 @@ fn construct(decl: Decl) -> Coll {
         }
         Ty::Mb => {
             let v = make_inits(inits, Src::new);
-            Coll::Mb(in_crate(move || MergeBounded::from_iter(v)))
+            Coll::Mb(in_crate(move || if lazy { MergeBounded::from_iter(v.into_iter().filter(|_| true)) } else { MergeBounded::from_iter(v) }))
         }
         Ty::Mu => {
             if use_iter {
                 let v = make_inits(inits, USrc::new);
-                Coll::Mu(in_crate(move || MergeUnbounded::from_iter(v)))
+                Coll::Mu(in_crate(move || if lazy { MergeUnbounded::from_iter(v.into_iter().filter(|_| true)) } else { MergeUnbounded::from_iter(v) }))
             } else if use_new || cap.is_none() {
                 Coll::Mu(in_crate(MergeUnbounded::new))
             } else {
@@ -511,7 +523,7 @@ fn construct(decl: Decl) -> Coll {
         Ty::Fob => {
             let mut c = if use_iter {
                 let v = make_inits(inits, Fut::new);
-                in_crate(move || FuturesOrderedBounded::from_iter(v))
+                in_crate(move || if lazy { FuturesOrderedBounded::from_iter(v.into_iter().filter(|_| true)) } else { FuturesOrderedBounded::from_iter(v) })
             } else {
                 let cap = cap.unwrap_or(0);
                 in_crate(|| FuturesOrderedBounded::new(cap))
@@ -526,7 +538,7 @@ fn construct(decl: Decl) -> Coll {
         Ty::Fo => {
             let mut c = if use_iter {
                 let v = make_inits(inits, Fut::new);
-                in_crate(move || FuturesOrdered::from_iter(v))
+                in_crate(move || if lazy { FuturesOrdered::from_iter(v.into_iter().filter(|_| true)) } else { FuturesOrdered::from_iter(v) })
             } else if use_new || cap.is_none() {
                 in_crate(FuturesOrdered::new)
             } else {
@@ -567,13 +579,18 @@ fn construct(decl: Decl) -> Coll {
             });
             Coll::Fec(Box::pin(a))
         }
+        Ty::Ja if spec.flag("zst") => {
+            let cids: Vec<u32> = inits.iter().map(|(c, _)| *c).collect();
+            let v = make_inits(inits, UnitFut::new);
+            Coll::JaUnit(in_crate(move || if lazy { join_all(v.into_iter().filter(|_| true)) } else { join_all(v) }), cids)
+        }
         Ty::Ja => {
             let v = make_inits(inits, Fut::new);
-            Coll::Ja(in_crate(move || join_all(v)))
+            Coll::Ja(in_crate(move || if lazy { join_all(v.into_iter().filter(|_| true)) } else { join_all(v) }))
         }
         Ty::Tja => {
             let v = make_inits(inits, TryFut::new);
-            Coll::Tja(in_crate(move || try_join_all(v)))
+            Coll::Tja(in_crate(move || if lazy { try_join_all(v.into_iter().filter(|_| true)) } else { try_join_all(v) }))
         }
     }
 }
@@ -719,6 +736,39 @@ fn poll(c: &mut Coll, waker: &Waker) {
                 drop_out_vec(v);
             }
         },
+        Coll::JaUnit(c, cids) => match in_crate(|| Pin::new(c).poll(cx)) {
+            Poll::Pending => logf!("ret pending"),
+            Poll::Ready(v) => {
+                // the outputs carry no data: what can be observed is how many there are
+                let n = cids.len();
+                let len = v.len();
+                let mut s = String::new();
+                for (i, cid) in cids.iter().take(len.min(n)).enumerate() {
+                    if i > 0 {
+                        s.push(',');
+                    }
+                    let _ = write!(s, "o{cid}");
+                }
+                for i in 0..len.saturating_sub(n).min(3) {
+                    if i > 0 || n > 0 {
+                        s.push(',');
+                    }
+                    s.push_str("g0.0.0");
+                }
+                if s.is_empty() {
+                    s.push('-');
+                }
+                logf!("ret ready {s}");
+                for cid in cids.iter().take(len.min(n)) {
+                    logf!("odrop o{cid} out");
+                }
+                if len >= n {
+                    // a second poll returns the empty Vec
+                    cids.clear();
+                }
+                drop(v);
+            }
+        },
         Coll::Tja(c) => match in_crate(|| Pin::new(c).poll(cx)) {
             Poll::Pending => logf!("ret pending"),
             Poll::Ready(Ok(v)) => {
@@ -775,7 +825,7 @@ fn observe(c: &Coll) -> Obs {
         Coll::Tbu(c) => o.hint = Some(in_crate(|| Stream::size_hint(&**c))),
         Coll::Tbo(c) => o.hint = Some(in_crate(|| Stream::size_hint(&**c))),
         Coll::Fec(c) => o.term = Some(in_crate(|| c.is_terminated())),
-        Coll::Ja(_) | Coll::Tja(_) => {}
+        Coll::Ja(_) | Coll::JaUnit(..) | Coll::Tja(_) => {}
     }
     o
 }
